@@ -16,6 +16,23 @@ REPO_ROOT = os.environ.get('PYDLSA_REPO', '/repo')
 ALL = ['C%02d' % i for i in range(1, 21) if i != 14]
 
 
+# property -> [(owner property, None = all its rules | set of rule ids)]: helper coverage by call-graph reachability
+BORROWS = {
+    'C01': [('C02', None)],                         # what was written must read back: the reader's rules
+    'C03': [('C01', None), ('C02', None)],          # append/write render rows like the writer, and are re-read
+    'C07': [('C02', None)],                         # the maskbits cache is filled by the yanny reader
+    'C09': [('C08', None)],                         # fit -> action -> intrv / bsplvn
+    'C10': [('C08', None), ('C09', None), ('C17', {'C17.REJ-MASKS', 'C17.GROW'})],      # iterfit -> fit / value / djs_reject
+    'C11': [('C10', None), ('C08', None), ('C09', None),
+            ('C17', {'C17.REJ-MASKS', 'C17.GROW', 'C17.AESTH', 'C17.MI-SITES', 'C17.MI1-STORE', 'C17.MI1-ORDER'})],
+    'C12': [('C18', {'C18.ANG-INV'})],              # RA/Dec input goes through angles_to_x
+    'C13': [('C17', {'C17.REJ-MASKS', 'C17.GROW'})],    # xy2traceset rejects through djs_reject
+    'C15': [('C17', {'C17.REJ-MASKS', 'C17.GROW'})],    # pca_solve rejects through djs_reject
+    'C19': [('C17', {'C17.MI-SITES', 'C17.MI1-STORE', 'C17.MI1-ORDER'}),               # filter_thru -> djs_maskinterp
+            ('C13', None)],                                                            #             -> traceset2xy
+}
+
+
 def rule_module(prop):
     try:
         return importlib.import_module('pydlsa.rules.' + prop.lower())
@@ -37,6 +54,33 @@ def evaluate(prop, repo, tier='quick'):
         # violations already established stand; the rest of the rules could not be evaluated
         ctx.notes['analysis_error_after_violations'] = str(e)
         print('NOTE property=%s: remaining rules not evaluated (%s)' % (prop, e))
+    ctx.own_functions = dict(ctx.functions)
+    # Rules of helper functions on this property's code path are owned by another property's module; they are evaluated here
+    # too (under their own rule ids), so that a change in a helper is reported by every property that depends on it.
+    for owner, only in BORROWS.get(prop, []):
+        omod = rule_module(owner)
+        sub = report.Ctx(prop, repo, tier)
+        try:
+            omod.run(sub)
+        except AnalysisError as e:
+            if not sub.violations and not ctx.violations:
+                raise AnalysisError('%s (while evaluating the helper rules borrowed from %s)' % (e, owner))
+            ctx.notes['analysis_error_after_violations'] = str(e)
+        keep = (lambda r: True) if only is None else (lambda r: r in only)
+        n = 0
+        for o in sub.obligations:
+            if keep(o['rule']):
+                ctx.obligations.append(o)
+                ctx.rule_counts[o['rule']] = ctx.rule_counts.get(o['rule'], 0) + 1
+                n += 1
+        for v in sub.violations:
+            if keep(v.rule):
+                ctx.violations.append(v)
+        for k, fdesc in sub.functions.items():
+            ctx.functions.setdefault(k, fdesc)
+        ctx.notes.setdefault('borrowed_rules', {})[owner] = {
+            'rules': sorted({o['rule'] for o in sub.obligations if keep(o['rule'])}), 'obligations': n,
+            'why': 'functions these rules anchor in are called on the code path of %s' % prop}
     if not ctx.violations:
         # a tree that violates a rule may legitimately show fewer instances of the others
         ctx.enforce_floors(mod.META.get('floors', {}))
@@ -54,7 +98,7 @@ def run_property(prop, tier, quiet=False):
             from . import selftest as st
             selftest = st.run_for(prop, repo)
             from . import fuzz
-            fz = fuzz.run_for(prop, repo, list(ctx.functions))
+            fz = fuzz.run_for(prop, repo, list(getattr(ctx, 'own_functions', ctx.functions)))
             selftest['harmless_edit_fuzz'] = {k: v for k, v in fz.items() if k != 'no_verdict_cases'}
             selftest['harmless_edit_fuzz']['no_verdict_examples'] = fz['no_verdict_cases'][:5]
             for fa_ in fz['false_alarms']:
@@ -81,7 +125,7 @@ def run_property(prop, tier, quiet=False):
             rc = ctx.rule_counts
             print('%s %s: %d obligations over %d functions, %d rules (%s); %d violation(s), %d known; %.2fs%s'
                   % (prop, tier, len(ctx.obligations), len(ctx.functions), len(rc),
-                     ', '.join('%s=%d' % (k.split('.', 1)[-1], rc[k]) for k in sorted(rc)),
+                     ', '.join('%s=%d' % (k.split('.', 1)[-1] if k.startswith(prop + '.') else k, rc[k]) for k in sorted(rc, key=lambda k: (not k.startswith(prop + '.'), k))),
                      len(new), len(known), time.time() - t0,
                      ('; self-test %d/%d breaking edits reported, %d/%d harmless rewrites silent, %d/%d fuzzed harmless edits silent (%d no verdict)'
                       % (selftest['killed'], selftest['mutants'], selftest['silent'], selftest['refactors'],
